@@ -101,6 +101,7 @@ func Decode(b []byte, v interface{}) (int, error) {
 		return 0, err
 	}
 	d := decoderPool.Get().(*tDecoder)
+	d.setQuota(len(b))
 	n, err := d.Decode(b, rv.UnsafePointer(), sd, maxDepthLimit)
 	decoderPool.Put(d)
 	return n, err
